@@ -202,7 +202,9 @@ def check_case(case, rec):
             W = np.asarray(wf.data[0][0][0], dtype=float)
             fin = np.isfinite(W)
             w = float(np.max(np.abs(W[fin]))) if fin.any() else float('inf')
-            rec.check('wavefront-zero', bool(fin.all()) and w <= 1e-6, resid=w, tol=1e-6,
+            # 'to numerical precision': 1e-6 waves, or 3e-12 of the optical path expressed in waves for long systems
+            tol_w = max(1e-6, 3e-12 * float(np.max(np.abs(opd[ok]))) / (wl * 1e-3))
+            rec.check('wavefront-zero', bool(fin.all()) and w <= tol_w, resid=w, tol=tol_w,
                       msg=f'{fam}: reported wavefront error {w:.3e} waves for a stigmatic system')
             if case['rings'] >= 6:
                 from optiland.psf import FFTPSF
